@@ -45,15 +45,28 @@ proof fn lemma_prod_nonneg(a: int, b: int)
 
 //@@ fn src/uint/add.rs | impl<const LIMBS: usize> CheckedAdd for Uint<LIMBS> | checked_add | body | props C04 C11 C15
 impl<const LIMBS: usize> CheckedAdd for Uint<LIMBS> {
+//@+
+    open spec fn checked_add_req(&self, rhs: &Self) -> bool { true }
+    open spec fn checked_add_ens(&self, rhs: &Self, r: CtOption<Self>) -> bool { r.is_some.wf() && r.is_some.t() == (self.v() + rhs.v() < bp(LIMBS as nat)) && r.value.v() == (self.v() + rhs.v()) % bp(LIMBS as nat) && (r.is_some.t() ==> r.value.v() == self.v() + rhs.v()) }
+//@-
 fn checked_add(&self, rhs: &Self) -> (ret__: CtOption<Self>)
 {
         let (result, carry) = self.adc(rhs, Limb::ZERO);
+//@+
+    proof { lemma_val_bound(result.limbs@, LIMBS as nat); lemma_bp_succ(LIMBS as nat); let w = bp(LIMBS as nat); let c = carry.0 as int;
+        assert(c == 0 || c == 1);
+        if c != 0 { assert(c * w == w) by (nonlinear_arith) requires c == 1; } else { assert(c * w == 0) by (nonlinear_arith) requires c == 0; } }
+//@-
         CtOption::new(result, carry.is_zero())
     }
 }
 //@@ end
 //@@ fn src/uint/add.rs | impl<const LIMBS: usize> WrappingAdd for Uint<LIMBS> | wrapping_add | body | props C04 C11 C15
 impl<const LIMBS: usize> WrappingAdd for Uint<LIMBS> {
+//@+
+    open spec fn wrapping_add_req(&self, v: &Self) -> bool { true }
+    open spec fn wrapping_add_ens(&self, v: &Self, r: Self) -> bool { r.v() == (self.v() + v.v()) % bp(LIMBS as nat) }
+//@-
 fn wrapping_add(&self, v: &Self) -> (ret__: Self)
 {
         self.wrapping_add(v)
@@ -62,15 +75,26 @@ fn wrapping_add(&self, v: &Self) -> (ret__: Self)
 //@@ end
 //@@ fn src/uint/sub.rs | impl<const LIMBS: usize> CheckedSub for Uint<LIMBS> | checked_sub | body | props C04 C11 C15
 impl<const LIMBS: usize> CheckedSub for Uint<LIMBS> {
+//@+
+    open spec fn checked_sub_req(&self, rhs: &Self) -> bool { true }
+    open spec fn checked_sub_ens(&self, rhs: &Self, r: CtOption<Self>) -> bool { r.is_some.wf() && r.is_some.t() == (self.v() >= rhs.v()) && r.value.v() == (self.v() - rhs.v()) % bp(LIMBS as nat) && (r.is_some.t() ==> r.value.v() == self.v() - rhs.v()) }
+//@-
 fn checked_sub(&self, rhs: &Self) -> (ret__: CtOption<Self>)
 {
         let (result, underflow) = self.sbb(rhs, Limb::ZERO);
+//@+
+    proof { lemma_val_bound(result.limbs@, LIMBS as nat); lemma_val_bound(self.limbs@, LIMBS as nat); lemma_val_bound(rhs.limbs@, LIMBS as nat); }
+//@-
         CtOption::new(result, underflow.is_zero())
     }
 }
 //@@ end
 //@@ fn src/uint/sub.rs | impl<const LIMBS: usize> WrappingSub for Uint<LIMBS> | wrapping_sub | body | props C04 C11 C15
 impl<const LIMBS: usize> WrappingSub for Uint<LIMBS> {
+//@+
+    open spec fn wrapping_sub_req(&self, v: &Self) -> bool { true }
+    open spec fn wrapping_sub_ens(&self, v: &Self, r: Self) -> bool { r.v() == (self.v() - v.v()) % bp(LIMBS as nat) }
+//@-
 fn wrapping_sub(&self, v: &Self) -> (ret__: Self)
 {
         self.wrapping_sub(v)
@@ -79,6 +103,10 @@ fn wrapping_sub(&self, v: &Self) -> (ret__: Self)
 //@@ end
 //@@ fn src/uint/mul.rs | impl<const LIMBS: usize, const RHS_LIMBS: usize> CheckedMul<Uint<RHS_LIMBS>> for Uint<LIMBS> | checked_mul | body | props C03 C11 C15
 impl<const LIMBS: usize, const RHS_LIMBS: usize> CheckedMul<Uint<RHS_LIMBS>> for Uint<LIMBS> {
+//@+
+    open spec fn checked_mul_req(&self, rhs: &Uint<RHS_LIMBS>) -> bool { LIMBS >= 1 && RHS_LIMBS >= 1 && LIMBS + RHS_LIMBS <= usize::MAX }
+    open spec fn checked_mul_ens(&self, rhs: &Uint<RHS_LIMBS>, r: CtOption<Self>) -> bool { r.is_some.wf() && r.is_some.t() == (self.v() * rhs.v() < bp(LIMBS as nat)) && r.value.v() == (self.v() * rhs.v()) % bp(LIMBS as nat) && (r.is_some.t() ==> r.value.v() == self.v() * rhs.v()) }
+//@-
 fn checked_mul(&self, rhs: &Uint<RHS_LIMBS>) -> (ret__: CtOption<Self>)
 {
         let (lo, hi) = self.split_mul(rhs);
@@ -88,6 +116,10 @@ fn checked_mul(&self, rhs: &Uint<RHS_LIMBS>) -> (ret__: CtOption<Self>)
 //@@ end
 //@@ fn src/uint/mul.rs | impl<const LIMBS: usize> WrappingMul for Uint<LIMBS> | wrapping_mul | body | props C03 C11 C15
 impl<const LIMBS: usize> WrappingMul for Uint<LIMBS> {
+//@+
+    open spec fn wrapping_mul_req(&self, v: &Self) -> bool { LIMBS >= 1 && 2 * LIMBS <= usize::MAX }
+    open spec fn wrapping_mul_ens(&self, v: &Self, r: Self) -> bool { r.v() == (self.v() * v.v()) % bp(LIMBS as nat) }
+//@-
 fn wrapping_mul(&self, v: &Self) -> (ret__: Self)
 {
         self.wrapping_mul(v)
@@ -96,6 +128,10 @@ fn wrapping_mul(&self, v: &Self) -> (ret__: Self)
 //@@ end
 //@@ fn src/uint/neg.rs | impl<const LIMBS: usize> WrappingNeg for Uint<LIMBS> | wrapping_neg | body | props C04 C11 C15
 impl<const LIMBS: usize> WrappingNeg for Uint<LIMBS> {
+//@+
+    open spec fn wrapping_neg_req(&self) -> bool { true }
+    open spec fn wrapping_neg_ens(&self, r: Self) -> bool { r.v() == (bp(LIMBS as nat) - self.v()) % bp(LIMBS as nat) }
+//@-
 fn wrapping_neg(&self) -> (ret__: Self)
 {
         self.wrapping_neg()
@@ -105,6 +141,9 @@ fn wrapping_neg(&self) -> (ret__: Self)
 //@@ fn src/uint/cmp.rs | impl<const LIMBS: usize> PartialEq for Uint<LIMBS> | eq | body | props C06 C11 C15
 impl<const LIMBS: usize> PartialEq for Uint<LIMBS> {
 fn eq(&self, other: &Self) -> (ret__: bool)
+//@+
+    ensures ret__ == (self.v() == other.v())
+//@-
 {
         self.ct_eq(other).into()
     }
@@ -113,6 +152,9 @@ fn eq(&self, other: &Self) -> (ret__: bool)
 //@@ fn src/uint/cmp.rs | impl<const LIMBS: usize> Ord for Uint<LIMBS> | cmp | body | props C06 C11 C15
 impl<const LIMBS: usize> Ord for Uint<LIMBS> {
 fn cmp(&self, other: &Self) -> (ret__: Ordering)
+//@+
+    ensures ret__ == ord_of(self.v(), other.v())
+//@-
 {
         let c = Self::cmp(self, other);
         match c {
@@ -126,6 +168,9 @@ fn cmp(&self, other: &Self) -> (ret__: Ordering)
 //@@ fn src/uint/cmp.rs | impl<const LIMBS: usize> PartialOrd for Uint<LIMBS> | partial_cmp | body | props C06 C11 C15
 impl<const LIMBS: usize> PartialOrd for Uint<LIMBS> {
 fn partial_cmp(&self, other: &Self) -> (ret__: Option<Ordering>)
+//@+
+    ensures ret__ == Some(ord_of(self.v(), other.v()))
+//@-
 {
         Some(self.cmp(other))
     }
@@ -133,6 +178,10 @@ fn partial_cmp(&self, other: &Self) -> (ret__: Option<Ordering>)
 //@@ end
 //@@ fn src/uint/div.rs | impl<const LIMBS: usize> DivVartime for Uint<LIMBS> | div_vartime | body | props C02 C11 C15
 impl<const LIMBS: usize> DivVartime for Uint<LIMBS> {
+//@+
+    open spec fn div_vartime_req(&self, rhs: &NonZero<Uint<LIMBS>>) -> bool { 1 <= LIMBS < 0x400_0000 && rhs.0.v() != 0 }
+    open spec fn div_vartime_ens(&self, rhs: &NonZero<Uint<LIMBS>>, r: Self) -> bool { r.v() == self.v() / rhs.0.v() }
+//@-
 fn div_vartime(&self, rhs: &NonZero<Uint<LIMBS>>) -> (ret__: Self)
 {
         self.div_rem_vartime(rhs).0
@@ -141,6 +190,11 @@ fn div_vartime(&self, rhs: &NonZero<Uint<LIMBS>>) -> (ret__: Self)
 //@@ end
 //@@ fn src/uint/add_mod.rs | impl<const LIMBS: usize> AddMod for Uint<LIMBS> | add_mod | body | props C07 C11 C15
 impl<const LIMBS: usize> AddMod for Uint<LIMBS> {
+//@+
+    type Output = Self;
+    open spec fn add_mod_req(&self, rhs: &Self, p: &Self) -> bool { self.v() < p.v() && rhs.v() < p.v() }
+    open spec fn add_mod_ens(&self, rhs: &Self, p: &Self, r: Self) -> bool { r.v() == (self.v() + rhs.v()) % p.v() && r.v() < p.v() }
+//@-
 fn add_mod(&self, rhs: &Self, p: &Self) -> (ret__: Self)
 {
         debug_assert!(self < p);
@@ -151,8 +205,16 @@ fn add_mod(&self, rhs: &Self, p: &Self) -> (ret__: Self)
 //@@ end
 //@@ fn src/uint/sub_mod.rs | impl<const LIMBS: usize> SubMod for Uint<LIMBS> | sub_mod | body | props C07 C11 C15
 impl<const LIMBS: usize> SubMod for Uint<LIMBS> {
+//@+
+    type Output = Self;
+    open spec fn sub_mod_req(&self, rhs: &Self, p: &Self) -> bool { self.v() < p.v() && rhs.v() < p.v() }
+    open spec fn sub_mod_ens(&self, rhs: &Self, p: &Self, r: Self) -> bool { r.v() == (self.v() - rhs.v()) % p.v() && r.v() < p.v() }
+//@-
 fn sub_mod(&self, rhs: &Self, p: &Self) -> (ret__: Self)
 {
+//@+
+    proof { lemma_val_bound(self.limbs@, LIMBS as nat); lemma_val_bound(rhs.limbs@, LIMBS as nat); }
+//@-
         debug_assert!(self < p);
         debug_assert!(rhs < p);
         self.sub_mod(rhs, p)
@@ -161,6 +223,11 @@ fn sub_mod(&self, rhs: &Self, p: &Self) -> (ret__: Self)
 //@@ end
 //@@ fn src/uint/neg_mod.rs | impl<const LIMBS: usize> NegMod for Uint<LIMBS> | neg_mod | body | props C07 C11 C15
 impl<const LIMBS: usize> NegMod for Uint<LIMBS> {
+//@+
+    type Output = Self;
+    open spec fn neg_mod_req(&self, p: &Self) -> bool { self.v() < p.v() }
+    open spec fn neg_mod_ens(&self, p: &Self, r: Self) -> bool { r.v() == (p.v() - self.v()) % p.v() && r.v() < p.v() }
+//@-
 fn neg_mod(&self, p: &Self) -> (ret__: Self)
 {
         debug_assert!(self < p);
@@ -170,9 +237,67 @@ fn neg_mod(&self, p: &Self) -> (ret__: Self)
 //@@ end
 //@@ fn src/uint/mul_mod.rs | impl<const LIMBS: usize> MulMod for Uint<LIMBS> | mul_mod | body | props C07 C11 C15
 impl<const LIMBS: usize> MulMod for Uint<LIMBS> {
+//@+
+    type Output = Self;
+    open spec fn mul_mod_req(&self, rhs: &Self, p: &Self) -> bool { 1 <= LIMBS < 0x400_0000 && p.v() != 0 }
+    open spec fn mul_mod_ens(&self, rhs: &Self, p: &Self, r: Self) -> bool { r.v() == (self.v() * rhs.v()) % p.v() && r.v() < p.v() }
+//@-
 fn mul_mod(&self, rhs: &Self, p: &Self) -> (ret__: Self)
 {
         self.mul_mod_vartime(rhs, &NonZero::new(*p).expect("p should be non-zero"))
+    }
+}
+//@@ end
+//@@ fn src/uint/div.rs | impl<const LIMBS: usize> Uint<LIMBS> | checked_div | body | props C02 C11 C15
+impl<const LIMBS: usize> Uint<LIMBS> {
+pub fn checked_div(&self, rhs: &Self) -> (ret__: CtOption<Self>)
+//@+
+    requires 1 <= LIMBS < 0x400_0000
+    ensures ret__.is_some.wf(), ret__.is_some.t() == (rhs.v() != 0), ret__.is_some.t() ==> ret__.value.v() == self.v() / rhs.v()
+//@-
+{
+        NonZero::new(*rhs).map(|rhs|
+//@+
+    -> (r__: Uint<LIMBS>)
+        requires rhs.0.v() != 0
+        ensures r__.v() == self.v() / rhs.0.v()
+//@-
+{
+            let (q, _r) = self.div_rem(&rhs);
+            q
+        })
+    }
+}
+//@@ end
+//@@ fn src/uint/div.rs | impl<const LIMBS: usize> Uint<LIMBS> | checked_rem | body | props C02 C11 C15
+impl<const LIMBS: usize> Uint<LIMBS> {
+pub fn checked_rem(&self, rhs: &Self) -> (ret__: CtOption<Self>)
+//@+
+    requires 1 <= LIMBS < 0x400_0000
+    ensures ret__.is_some.wf(), ret__.is_some.t() == (rhs.v() != 0), ret__.is_some.t() ==> ret__.value.v() == self.v() % rhs.v()
+//@-
+{
+        NonZero::new(*rhs).map(|rhs|
+//@+
+    -> (r__: Uint<LIMBS>)
+        requires rhs.0.v() != 0
+        ensures r__.v() == self.v() % rhs.0.v()
+//@-
+{
+self.rem(&rhs)
+})
+    }
+}
+//@@ end
+//@@ fn src/uint/div.rs | impl<const LIMBS: usize> CheckedDiv for Uint<LIMBS> | checked_div | body | props C02 C11 C15
+impl<const LIMBS: usize> CheckedDiv for Uint<LIMBS> {
+//@+
+    open spec fn checked_div_req(&self, rhs: &Uint<LIMBS>) -> bool { 1 <= LIMBS < 0x400_0000 }
+    open spec fn checked_div_ens(&self, rhs: &Uint<LIMBS>, r: CtOption<Self>) -> bool { r.is_some.wf() && r.is_some.t() == (rhs.v() != 0) && (r.is_some.t() ==> r.value.v() == self.v() / rhs.v()) }
+//@-
+fn checked_div(&self, rhs: &Uint<LIMBS>) -> (ret__: CtOption<Self>)
+{
+        self.checked_div(rhs)
     }
 }
 //@@ end
